@@ -29,6 +29,7 @@ import (
 	"strconv"
 	"strings"
 	"sync"
+	"time"
 
 	"github.com/ohler55/slip"
 	"verif/harness/lib"
@@ -156,6 +157,17 @@ func c12GenSlots(r *lib.Rng, cls, version int, o c12GenOpts, usedArgs map[int]bo
 	for i := 3; i > 0; i-- {
 		j := r.Intn(i + 1)
 		perm[i], perm[j] = perm[j], perm[i]
+	}
+	// half of the classes draw their slots from two names only: the same slot then shows up at many
+	// places of a hierarchy (shadowing, joins of a diamond)
+	if r.Bool() {
+		perm = []int{0, 1}
+		if r.Bool() {
+			perm = []int{1, 0}
+		}
+		if nslots > 2 {
+			nslots = 2
+		}
 	}
 	for _, name := range perm[:nslots] {
 		sl := c12Slot{name: name}
@@ -299,7 +311,7 @@ func c12StepObs(n int, pick int) []string {
 	for k := 0; k < n; k++ {
 		toks = append(toks, fmt.Sprintf("P:%d", k))
 	}
-	toks = append(toks, fmt.Sprintf("M:%d:-", pick))
+	toks = append(toks, fmt.Sprintf("M:%d:-", pick), "H:0")
 	return toks
 }
 
@@ -412,6 +424,9 @@ func c12FinalBlock(r *lib.Rng, cf *c12Config) []string {
 				sub[i], sub[j] = sub[j], sub[i]
 			}
 			toks = append(toks, c12ArgToken(c, sub))
+			if si == 0 {
+				toks = append(toks, "H:0", "C")
+			}
 			if si != actAfter {
 				continue
 			}
@@ -510,12 +525,46 @@ func c12FinalBlock(r *lib.Rng, cf *c12Config) []string {
 // inserted after position rpos of the order, a step observation after every form, then final.
 func c12Build(r *lib.Rng, cf *c12Config, order []int, rpos int, final []string, reps int) *c12Prog {
 	p := &c12Prog{redefAt: -1, reps: 1}
+	// a generic function with a method on every class, defined first and called throughout (its
+	// dispatch cache lives across the definitions)
+	all := make([]int, cf.n)
+	for k := range all {
+		all[k] = k
+	}
+	p.toks = append(p.toks, "G:0:"+c12Ints(all, ","))
+	// instances that are kept and observed again after later forms (in particular across the
+	// redefinition): slip documents that an existing instance keeps its class object
+	nkept := 0
+	keep := func(c int) {
+		if nkept < 3 {
+			p.toks = append(p.toks, fmt.Sprintf("M:%d:-", c), fmt.Sprintf("K:%d", nkept), "C", "H:0")
+			nkept++
+		}
+	}
+	keepAfter := -1
+	if cf.redef == nil {
+		keepAfter = r.Intn(len(order))
+	}
+	nforms := 0
 	emit := func(c int, d c12Class, isRedef bool) {
 		if isRedef {
+			keep(cf.rcls)
+			keep(r.Intn(cf.n))
+			if r.Bool() {
+				keep(r.Intn(cf.n))
+			}
 			p.redefAt = len(p.toks)
 		}
 		p.toks = append(p.toks, d.token(c))
 		p.toks = append(p.toks, c12StepObs(cf.n, r.Intn(cf.n))...)
+		for j := 0; j < nkept; j++ {
+			p.toks = append(p.toks, fmt.Sprintf("X:%d", j), "C", fmt.Sprintf("t:%d", r.Intn(cf.n)), "H:0")
+		}
+		if nforms == keepAfter {
+			keep(c)
+			keep(r.Intn(cf.n))
+		}
+		nforms++
 	}
 	if cf.redef != nil && rpos == 0 {
 		emit(cf.rcls, *cf.redef, true)
@@ -525,6 +574,23 @@ func c12Build(r *lib.Rng, cf *c12Config, order []int, rpos int, final []string, 
 		if cf.redef != nil && rpos == i+1 {
 			emit(cf.rcls, *cf.redef, true)
 		}
+	}
+	// the kept instances at the end: class-of, typep against every class, applicable methods, slots
+	for j := 0; j < nkept; j++ {
+		p.toks = append(p.toks, fmt.Sprintf("X:%d", j), "C")
+		for k := 0; k <= cf.n; k++ {
+			p.toks = append(p.toks, fmt.Sprintf("t:%d", k))
+		}
+		var ks []int
+		for k := 0; k < cf.n; k++ {
+			if r.Chance(60) {
+				ks = append(ks, k)
+			}
+		}
+		if len(ks) == 0 {
+			ks = []int{r.Intn(cf.n)}
+		}
+		p.toks = append(p.toks, "a:"+c12Ints(ks, ","), "H:0", fmt.Sprintf("W:%d:%d:s:0", r.Intn(4), 7000+j), fmt.Sprintf("X:%d", j))
 	}
 	p.final = len(p.toks)
 	p.toks = append(p.toks, final...)
@@ -614,6 +680,10 @@ var c12Cells = []c12Cell{
 		"D:0:-:0/-/1/- D:1:0:0/-/11/- D:2:0:0/-/21/- D:3:1,2:-  D:4:2,1:- P:3 P:4 M:3:- M:4:- A:3:0,1,2 A:4:0,1,2 T:3:0"},
 	{"diamond/forward", 1,
 		"D:3:1,2:- P:3 D:2:0:0/-/21/- P:3 D:1:0:0/-/11/- P:3 P:1 M:3:- D:0:-:0/-/1/- P:3 P:2 P:1 M:3:- A:3:0,1,2 T:3:0"},
+	{"diamond/initform-through-join", 1,
+		"D:0:-:0/0/1/-;1/-/2/- D:1:0:- D:2:0:0/-/21/- D:3:1,2:- D:4:2,1:- D:5:1,2:1/-/52/- P:3 M:3:- M:4:- M:5:- M:3:0=1000"},
+	{"diamond/initarg-through-join", 1,
+		"D:0:-:0/0/1/- D:1:0:- D:2:0:0/1/-/- D:3:1,2:- P:3 M:3:- M:3:0=1000 M:3:1=1010 M:1:1=1010"},
 	{"super-order/ancestor-first", 1,
 		"D:0:-:0/-/1/- D:1:0:0/-/11/- D:2:0,1:- P:2 M:2:- A:2:0,1 D:3:1,0:- P:3 M:3:- A:3:0,1"},
 	{"shadow/initform-levels", 1,
@@ -650,6 +720,20 @@ var c12Cells = []c12Cell{
 		"D:0:-:0/-/1/- D:1:0:- D:2:1:- M:2:- D:0:3:0/-/101/- P:0 P:1 P:2 M:2:- M:1:- D:3:-:3/-/34/- P:0 P:1 P:2 M:0:- M:1:- M:2:- T:2:3"},
 	{"redefine/before-subclass-defined", 4,
 		"D:1:0:1/-/12/- D:0:-:0/-/1/- M:1:- D:0:-:0/-/101/- M:1:- D:2:1:- P:2 M:2:-"},
+	{"existing/instance-of-redefined-class", 12,
+		"D:0:-:0/0/1/- D:2:-:2/-/23/- D:1:0:1/-/12/- M:1:- K:0 C t:0 t:2 a:0,1,2 D:1:2:1/-/112/-;3/-/114/- X:0 C t:0 t:1 t:2 a:0,1,2 W:1:7000:s:0 X:0 M:1:- C t:0 t:2 a:0,1,2 X:0 C"},
+	{"existing/instance-of-subclass", 12,
+		"D:0:-:0/0/1/- D:1:0:- D:2:1:- D:3:-:3/-/34/- M:2:- K:0 C t:3 a:0,3 D:0:3:0/0/101/- X:0 C t:3 t:0 a:0,3 M:2:- C t:3"},
+	{"existing/class-becomes-not-ready", 12,
+		"D:0:-:0/0/1/- D:1:0:- M:1:- K:0 C D:0:3:0/0/101/- X:0 C D:3:-:- X:0 C t:3 t:0 a:0,3"},
+	{"existing/redefined-twice", 12,
+		"D:0:-:0/-/1/- D:1:0:- M:1:- K:0 D:1:-:- M:1:- K:1 D:1:0:1/-/112/- X:0 C t:0 X:1 C t:0 M:1:- C t:0"},
+	{"dispatch/cache-across-redefinition", 12,
+		"D:3:-:- D:0:-:- D:1:0:- G:0:0,1,3 M:1:- H:0 D:0:3:- M:1:- H:0 t:3 A:1:0,1,3"},
+	{"dispatch/cache-old-and-new-instance", 12,
+		"D:3:-:- D:0:-:- G:0:0,3 M:0:- K:0 H:0 D:0:3:- M:0:- H:0 X:0 H:0 M:0:- H:0 X:0 H:0"},
+	{"dispatch/cache-subclass-redefined-super-dropped", 12,
+		"D:0:-:- D:1:0:- D:2:1:- G:0:0,1,2 M:2:- H:0 D:1:-:- M:2:- H:0 t:0"},
 	{"redefine/leaf", 4,
 		"D:0:-:0/-/1/- D:1:0:1/1/12/- M:1:- D:1:0:1/1/112/-;2/-/113/- P:1 M:1:- M:1:1=1010 M:0:-"},
 }
@@ -692,19 +776,23 @@ func c12SweepPrograms() []*c12Prog {
 // running a program on the implementation
 
 type c12Exec struct {
-	scope    *slip.Scope
-	sfx      string
-	cur      slip.Object
-	gcount   int
-	obsForm  string
-	trace    []string // transcript (replay mode)
-	keepText bool
+	scope     *slip.Scope
+	sfx       string
+	cur       slip.Object
+	curReg    int                 // register holding the current instance (-1: none)
+	regs      map[int]slip.Object // kept instances
+	regClass  map[int]slip.Object // their class objects when they were kept
+	gcount    int
+	trDefined bool
+	obsForm   string
+	trace     []string // transcript (replay mode)
+	keepText  bool
 }
 
 const c12SlotPool = 6
 
 func newC12Exec(sfx string, keep bool) *c12Exec {
-	e := &c12Exec{scope: slip.NewScope(), sfx: sfx, keepText: keep}
+	e := &c12Exec{scope: slip.NewScope(), sfx: sfx, keepText: keep, curReg: -1, regs: map[int]slip.Object{}, regClass: map[int]slip.Object{}}
 	var b strings.Builder
 	b.WriteString("(list")
 	for x := 0; x < c12SlotPool; x++ {
@@ -808,6 +896,87 @@ func (e *c12Exec) fresh(c int) (slip.Object, bool) {
 	return o.Value, true
 }
 
+// defMethods defines a :before and a primary method on g for every listed class
+func (e *c12Exec) defMethods(g string, ks []string) string {
+	tr := "*c12tr" + e.sfx + "*"
+	if !e.trDefined {
+		e.trDefined = true
+		e.eval(fmt.Sprintf("(defvar %s nil)", tr))
+	}
+	for _, ks := range ks {
+		k, _ := strconv.Atoi(ks)
+		cn := e.cname(k)
+		if o := e.eval(fmt.Sprintf("(defmethod %s :before ((o %s)) (setq %s (cons '%s %s)))", g, cn, tr, cn, tr)); !o.Ok {
+			return "!error:" + o.Class
+		}
+		if o := e.eval(fmt.Sprintf("(defmethod %s ((o %s)) '%s)", g, cn, cn)); !o.Ok {
+			return "!error:" + o.Class
+		}
+	}
+	return ""
+}
+
+// callGeneric calls g on inst: the classes whose :before methods ran, most specific first; the
+// primary method that ran must be the first of them
+func (e *c12Exec) callGeneric(g string, inst slip.Object) string {
+	tr := "*c12tr" + e.sfx + "*"
+	e.scope.Let(slip.Symbol("tmp"), inst)
+	o := e.eval(fmt.Sprintf("(progn (setq %s nil) (list (%s tmp) (reverse %s)))", tr, g, tr))
+	if !o.Ok {
+		if o.Class == "no-applicable-method-error" {
+			return "-"
+		}
+		return "!error:" + o.Class
+	}
+	res, _ := o.Value.(slip.List)
+	if len(res) != 2 {
+		return "!shape"
+	}
+	trl, _ := res[1].(slip.List)
+	var parts []string
+	for _, x := range trl {
+		if k, ok := e.classNum(slip.ObjectString(x)); ok {
+			parts = append(parts, strconv.Itoa(k))
+		} else {
+			parts = append(parts, "?")
+		}
+	}
+	if len(parts) == 0 {
+		return "!no-before-ran"
+	}
+	if k, ok := e.classNum(slip.ObjectString(res[0])); !ok || strconv.Itoa(k) != parts[0] {
+		return "!primary:" + slip.ObjectString(res[0]) + "/" + strings.Join(parts, ".")
+	}
+	return strings.Join(parts, ".")
+}
+
+// precWord renders the result of class-precedence (constant tail standard-object t stripped)
+func (e *c12Exec) precWord(o lib.Outcome) string {
+	if !o.Ok {
+		return "!notready"
+	}
+	l, _ := o.Value.(slip.List)
+	if len(l) == 0 {
+		return "!notready"
+	}
+	var names []string
+	for _, x := range l {
+		names = append(names, strings.ToLower(slip.ObjectString(x)))
+	}
+	if len(names) < 3 || names[len(names)-1] != "t" || names[len(names)-2] != "standard-object" {
+		return "!tail:" + strings.Join(names, ".")
+	}
+	var parts []string
+	for _, nm := range names[:len(names)-2] {
+		if k, ok := e.classNum(nm); ok {
+			parts = append(parts, strconv.Itoa(k))
+		} else {
+			parts = append(parts, "?"+nm)
+		}
+	}
+	return strings.Join(parts, ".")
+}
+
 // step executes one token and returns the reply word.
 func (e *c12Exec) step(tok string) string {
 	f := strings.Split(tok, ":")
@@ -874,30 +1043,7 @@ func (e *c12Exec) step(tok string) string {
 		}
 		return "d"
 	case "P":
-		o := e.eval(fmt.Sprintf("(class-precedence '%s)", e.cname(num(1))))
-		if !o.Ok {
-			return "!notready"
-		}
-		l, _ := o.Value.(slip.List)
-		if len(l) == 0 {
-			return "!notready"
-		}
-		var names []string
-		for _, x := range l {
-			names = append(names, strings.ToLower(slip.ObjectString(x)))
-		}
-		if len(names) < 3 || names[len(names)-1] != "t" || names[len(names)-2] != "standard-object" {
-			return "!tail:" + strings.Join(names, ".")
-		}
-		var parts []string
-		for _, nm := range names[:len(names)-2] {
-			if k, ok := e.classNum(nm); ok {
-				parts = append(parts, strconv.Itoa(k))
-			} else {
-				parts = append(parts, "?"+nm)
-			}
-		}
-		return strings.Join(parts, ".")
+		return e.precWord(e.eval(fmt.Sprintf("(class-precedence '%s)", e.cname(num(1)))))
 	case "M":
 		c := num(1)
 		var b strings.Builder
@@ -908,6 +1054,7 @@ func (e *c12Exec) step(tok string) string {
 		}
 		b.WriteString(")")
 		e.cur = nil
+		e.curReg = -1
 		o := e.eval(b.String())
 		if !o.Ok {
 			return "!error"
@@ -984,48 +1131,90 @@ func (e *c12Exec) step(tok string) string {
 		}
 		e.gcount++
 		g := fmt.Sprintf("g%dx%s", e.gcount, e.sfx)
-		tr := "*c12tr" + e.sfx + "*"
-		if e.gcount == 1 {
-			e.eval(fmt.Sprintf("(defvar %s nil)", tr))
+		if w := e.defMethods(g, list(f[2], ",")); w != "" {
+			return w
 		}
-		for _, ks := range list(f[2], ",") {
-			k, _ := strconv.Atoi(ks)
-			cn := e.cname(k)
-			if o := e.eval(fmt.Sprintf("(defmethod %s :before ((o %s)) (setq %s (cons '%s %s)))", g, cn, tr, cn, tr)); !o.Ok {
-				return "!error:" + o.Class
-			}
-			if o := e.eval(fmt.Sprintf("(defmethod %s ((o %s)) '%s)", g, cn, cn)); !o.Ok {
-				return "!error:" + o.Class
+		return e.callGeneric(g, inst)
+	case "a":
+		if e.cur == nil {
+			return "!noinst"
+		}
+		e.gcount++
+		g := fmt.Sprintf("g%dx%s", e.gcount, e.sfx)
+		if w := e.defMethods(g, list(f[1], ",")); w != "" {
+			return w
+		}
+		return e.callGeneric(g, e.cur)
+	case "G":
+		if w := e.defMethods(fmt.Sprintf("pg%dx%s", num(1), e.sfx), list(f[2], ",")); w != "" {
+			return w
+		}
+		return "g"
+	case "H":
+		if e.cur == nil {
+			return "!noinst"
+		}
+		return e.callGeneric(fmt.Sprintf("pg%dx%s", num(1), e.sfx), e.cur)
+	case "K":
+		if e.cur == nil {
+			return "!noinst"
+		}
+		e.regs[num(1)] = e.cur
+		e.scope.Let(slip.Symbol("cur"), e.cur)
+		if o := e.eval("(class-of cur)"); o.Ok {
+			e.regClass[num(1)] = o.Value
+		}
+		e.curReg = num(1)
+		return "k"
+	case "X":
+		inst, ok := e.regs[num(1)]
+		if !ok {
+			e.cur = nil
+			e.curReg = -1
+			return "!noinst"
+		}
+		e.cur = inst
+		e.curReg = num(1)
+		return e.observe()
+	case "C":
+		if e.cur == nil {
+			return "!noinst"
+		}
+		e.scope.Let(slip.Symbol("cur"), e.cur)
+		no := e.eval("(class-name (class-of cur))")
+		if !no.Ok {
+			return "!error:" + no.Class
+		}
+		k, ok := e.classNum(no.Text)
+		if !ok {
+			return "!classname:" + no.Text
+		}
+		// the class object of an instance never changes
+		if saved, has := e.regClass[e.curReg]; has && e.curReg >= 0 {
+			e.scope.Let(slip.Symbol("kcls"), saved)
+			if o := e.eval("(eq (class-of cur) kcls)"); !o.Ok || o.Value == nil {
+				return fmt.Sprintf("%d/!class-of-changed", k)
 			}
 		}
-		e.scope.Let(slip.Symbol("tmp"), inst)
-		o := e.eval(fmt.Sprintf("(progn (setq %s nil) (list (%s tmp) (reverse %s)))", tr, g, tr))
+		status := "old"
+		if o := e.eval(fmt.Sprintf("(eq (class-of cur) (find-class '%s))", e.cname(k))); o.Ok && o.Value != nil {
+			status = "cur"
+		}
+		po := e.eval("(class-precedence (class-of cur))")
+		return fmt.Sprintf("%d/%s/%s", k, status, e.precWord(po))
+	case "t":
+		if e.cur == nil {
+			return "!noinst"
+		}
+		e.scope.Let(slip.Symbol("cur"), e.cur)
+		o := e.eval(fmt.Sprintf("(typep cur '%s)", e.cname(num(1))))
 		if !o.Ok {
-			if o.Class == "no-applicable-method-error" {
-				return "-"
-			}
 			return "!error:" + o.Class
 		}
-		res, _ := o.Value.(slip.List)
-		if len(res) != 2 {
-			return "!shape"
+		if o.Value == nil {
+			return "nil"
 		}
-		trl, _ := res[1].(slip.List)
-		var parts []string
-		for _, x := range trl {
-			if k, ok := e.classNum(slip.ObjectString(x)); ok {
-				parts = append(parts, strconv.Itoa(k))
-			} else {
-				parts = append(parts, "?")
-			}
-		}
-		if len(parts) == 0 {
-			return "!no-before-ran"
-		}
-		if k, ok := e.classNum(slip.ObjectString(res[0])); !ok || strconv.Itoa(k) != parts[0] {
-			return "!primary:" + slip.ObjectString(res[0]) + "/" + strings.Join(parts, ".")
-		}
-		return strings.Join(parts, ".")
+		return "t"
 	}
 	return "!token"
 }
@@ -1060,13 +1249,85 @@ func c12Worker() {
 		for rep := 0; rep < reps; rep++ {
 			words, _ := c12RunImpl(fmt.Sprintf("%sr%d", f[0], rep), f[2:], false)
 			fmt.Fprintf(w, "%s %d %s\n", f[0], rep, strings.Join(words, " "))
+			w.Flush()
+		}
+	}
+}
+
+// c12RunWorker runs the programs in one fresh worker process. The worker writes one line per
+// finished run; it is killed when it produces NO line for `idle` (a run takes milliseconds, `idle`
+// is minutes: progress, not total time, is what is watched, so machine load cannot trigger it).
+// Returns the complete reply lines received and whether the worker stalled.
+func c12RunWorker(c *lib.Ctx, part []*c12Prog, idle time.Duration) (lines []string, stalled bool, err error) {
+	var in strings.Builder
+	for _, p := range part {
+		fmt.Fprintf(&in, "%s %d %s\n", p.key, p.reps, strings.Join(p.toks, " "))
+	}
+	cmd := exec.Command(os.Args[0], "C12", "--root", c.Root, "--repo", c.Repo)
+	cmd.Env = append(os.Environ(), "VERIF_C12_WORKER=1")
+	cmd.Stdin = strings.NewReader(in.String())
+	cmd.Stderr = os.Stderr
+	pipe, err := cmd.StdoutPipe()
+	if err != nil {
+		return nil, false, err
+	}
+	if err = cmd.Start(); err != nil {
+		return nil, false, err
+	}
+	got := make(chan string, 1024)
+	go func() {
+		sc := bufio.NewScanner(pipe)
+		sc.Buffer(make([]byte, 1<<20), 1<<26)
+		for sc.Scan() {
+			got <- sc.Text()
+		}
+		close(got)
+	}()
+	timer := time.NewTimer(idle)
+	defer timer.Stop()
+	for {
+		select {
+		case line, ok := <-got:
+			if !ok {
+				return lines, false, cmd.Wait()
+			}
+			lines = append(lines, line)
+			if !timer.Stop() {
+				select {
+				case <-timer.C:
+				default:
+				}
+			}
+			timer.Reset(idle)
+		case <-timer.C:
+			_ = cmd.Process.Kill()
+			for range got {
+			}
+			_ = cmd.Wait()
+			return lines, true, nil
 		}
 	}
 }
 
 // c12RunAll distributes the programs over worker processes (fresh process per chunk: classes are
-// global and never go away, so a process is retired after a few hundred programs);
-// result[key][rep] = words
+// global and never go away, so a process is retired after a few hundred runs);
+// result[key][rep] = words.
+//
+// Hangs (slip can dead-lock: a mutex left locked by a panic) must not stop the check, and the
+// verdict must not depend on the load of the machine: a worker is watched for PROGRESS (one line
+// per finished run); when it produces nothing for c12Idle, the first unanswered program is run
+// again ALONE in a fresh process under the same watch. Only a program that stalls then too is
+// recorded as hung (every word "!hang"); otherwise its results are used. The rest of the chunk is
+// queued again.
+// c12Idle: no finished run for this long = stalled (a run normally takes 5-50 ms).
+// VERIF_C12_IDLE_S overrides it (only meant for exercising the hang path quickly).
+var c12Idle = func() time.Duration {
+	if v, err := strconv.Atoi(os.Getenv("VERIF_C12_IDLE_S")); err == nil && v > 0 {
+		return time.Duration(v) * time.Second
+	}
+	return 3 * time.Minute
+}()
+
 func c12RunAll(c *lib.Ctx, progs []*c12Prog) map[string][][]string {
 	nw := runtime.NumCPU() / 2
 	if nw > 8 {
@@ -1075,57 +1336,125 @@ func c12RunAll(c *lib.Ctx, progs []*c12Prog) map[string][][]string {
 	if nw < 1 {
 		nw = 1
 	}
-	const chunk = 200
-	var inputs []string
-	for at := 0; at < len(progs); at += chunk {
-		var in strings.Builder
-		for i := at; i < at+chunk && i < len(progs); i++ {
-			p := progs[i]
-			fmt.Fprintf(&in, "%s %d %s\n", p.key, p.reps, strings.Join(p.toks, " "))
+	const maxRuns = 400
+	var queue [][]*c12Prog
+	var cur []*c12Prog
+	runs := 0
+	for _, p := range progs {
+		if runs+p.reps > maxRuns && len(cur) > 0 {
+			queue = append(queue, cur)
+			cur, runs = nil, 0
 		}
-		inputs = append(inputs, in.String())
+		cur = append(cur, p)
+		runs += p.reps
+	}
+	if len(cur) > 0 {
+		queue = append(queue, cur)
 	}
 	res := map[string][][]string{}
 	var mu sync.Mutex
 	var wg sync.WaitGroup
 	failed := false
-	next := 0
+	busy := 0
+	hangsConfirmed, slowChunks := 0, 0
+	store := func(lines []string) {
+		for _, line := range lines {
+			f := strings.Fields(line)
+			if len(f) < 2 {
+				continue
+			}
+			rep, _ := strconv.Atoi(f[1])
+			for len(res[f[0]]) <= rep {
+				res[f[0]] = append(res[f[0]], nil)
+			}
+			res[f[0]][rep] = f[2:]
+		}
+	}
+	complete := func(p *c12Prog) bool {
+		if len(res[p.key]) < p.reps {
+			return false
+		}
+		for _, w := range res[p.key] {
+			if w == nil {
+				return false
+			}
+		}
+		return true
+	}
 	for w := 0; w < nw; w++ {
 		wg.Add(1)
 		go func() {
 			defer wg.Done()
 			for {
 				mu.Lock()
-				if next >= len(inputs) || failed {
+				if failed || (len(queue) == 0 && busy == 0) {
 					mu.Unlock()
 					return
 				}
-				input := inputs[next]
-				next++
+				if len(queue) == 0 {
+					mu.Unlock()
+					time.Sleep(50 * time.Millisecond)
+					continue
+				}
+				part := queue[0]
+				queue = queue[1:]
+				busy++
 				mu.Unlock()
-				cmd := exec.Command(os.Args[0], "C12", "--root", c.Root, "--repo", c.Repo)
-				cmd.Env = append(os.Environ(), "VERIF_C12_WORKER=1")
-				cmd.Stdin = strings.NewReader(input)
-				cmd.Stderr = os.Stderr
-				out, err := cmd.Output()
+				lines, timedOut, err := c12RunWorker(c, part, c12Idle)
 				mu.Lock()
 				if err != nil {
 					fmt.Fprintf(os.Stderr, "C12 worker failed: %v\n", err)
 					failed = true
+					busy--
 					mu.Unlock()
 					return
 				}
-				for _, line := range strings.Split(string(out), "\n") {
-					f := strings.Fields(line)
-					if len(f) < 2 {
-						continue
+				store(lines)
+				var suspect *c12Prog
+				if timedOut {
+					slowChunks++
+					for i, p := range part {
+						if complete(p) {
+							continue
+						}
+						suspect = p
+						delete(res, p.key)
+						if i+1 < len(part) {
+							queue = append(queue, part[i+1:])
+						}
+						break
 					}
-					rep, _ := strconv.Atoi(f[1])
-					for len(res[f[0]]) <= rep {
-						res[f[0]] = append(res[f[0]], nil)
-					}
-					res[f[0]][rep] = f[2:]
 				}
+				mu.Unlock()
+				if suspect != nil {
+					// confirmation: the program alone, fresh process
+					lines, timedOut, err := c12RunWorker(c, []*c12Prog{suspect}, c12Idle)
+					mu.Lock()
+					if err != nil {
+						fmt.Fprintf(os.Stderr, "C12 worker failed: %v\n", err)
+						failed = true
+					} else {
+						store(lines)
+						if timedOut || !complete(suspect) {
+							hangsConfirmed++
+							hang := make([]string, len(suspect.toks))
+							for j := range hang {
+								hang[j] = "!hang"
+							}
+							for len(res[suspect.key]) < suspect.reps {
+								res[suspect.key] = append(res[suspect.key], nil)
+							}
+							for rep := range res[suspect.key] {
+								if res[suspect.key][rep] == nil {
+									res[suspect.key][rep] = hang
+								}
+							}
+						}
+					}
+					mu.Unlock()
+				}
+				mu.Lock()
+				busy--
 				mu.Unlock()
 			}
 		}()
@@ -1134,6 +1463,8 @@ func c12RunAll(c *lib.Ctx, progs []*c12Prog) map[string][][]string {
 	if failed {
 		os.Exit(2)
 	}
+	c.Ev.Coverage["worker_chunks_over_deadline"] = slowChunks
+	c.Ev.Coverage["hangs_confirmed_alone"] = hangsConfirmed
 	return res
 }
 
@@ -1162,6 +1493,11 @@ func c12Agree(tok, model, impl string) bool {
 		if model == "!noslot" {
 			return strings.HasPrefix(impl, "!error:")
 		}
+	case 't', 'a', 'H':
+		if model == "!notready" {
+			// an existing instance whose class currently has an undefined superclass: not constrained
+			return true
+		}
 	}
 	return false
 }
@@ -1184,6 +1520,9 @@ func c12Aspect(p *c12Prog, i int, model, impl string, curClass int) string {
 	f := strings.Split(tok, ":")
 	cls := curClass
 	aspect := "other"
+	if impl == "!hang" {
+		return "hang"
+	}
 	switch f[0] {
 	case "D":
 		aspect = "defclass"
@@ -1198,6 +1537,16 @@ func c12Aspect(p *c12Prog, i int, model, impl string, curClass int) string {
 		cls, _ = strconv.Atoi(f[1])
 	case "R", "W", "U":
 		aspect = "accessor"
+	case "C":
+		aspect = "class-of"
+	case "t":
+		aspect = "typep"
+	case "a", "H":
+		aspect = "applicable"
+	case "G":
+		aspect = "defgeneric"
+	case "K", "X":
+		aspect = "instance"
 	case "M":
 		cls, _ = strconv.Atoi(f[1])
 		aspect = "make-instance"
@@ -1242,18 +1591,47 @@ func c12Aspect(p *c12Prog, i int, model, impl string, curClass int) string {
 	if p.redefAt >= 0 && i > p.redefAt && p.affected[cls] {
 		aspect = "redefinition/" + aspect
 	}
+	if c12CurIsKept(p.toks, i) {
+		aspect = "existing-instance/" + aspect
+	}
 	return aspect
 }
 
+// c12CurClass: the class of the current instance at token i (-1: none), following keep / recall
 func c12CurClass(toks []string, i int) int {
-	for j := i; j >= 0; j-- {
-		if strings.HasPrefix(toks[j], "M:") {
-			f := strings.Split(toks[j], ":")
-			k, _ := strconv.Atoi(f[1])
-			return k
+	cur := -1
+	regs := map[string]int{}
+	for j := 0; j <= i && j < len(toks); j++ {
+		f := strings.Split(toks[j], ":")
+		switch f[0] {
+		case "M":
+			cur, _ = strconv.Atoi(f[1])
+		case "K":
+			regs[f[1]] = cur
+		case "X":
+			if c, ok := regs[f[1]]; ok {
+				cur = c
+			} else {
+				cur = -1
+			}
 		}
 	}
-	return -1
+	return cur
+}
+
+// c12CurIsKept: the current instance at token i was recalled from a register (it may predate a
+// redefinition)
+func c12CurIsKept(toks []string, i int) bool {
+	kept := false
+	for j := 0; j <= i && j < len(toks); j++ {
+		switch toks[j][0] {
+		case 'M':
+			kept = false
+		case 'X':
+			kept = true
+		}
+	}
+	return kept && strings.ContainsAny(toks[i][:1], "CtaHWRUX")
 }
 
 // c12Lisp renders the program up to token `upto` as the Lisp forms the harness evaluates, with
@@ -1310,7 +1688,7 @@ func c12Compare(c *lib.Ctx, p *c12Prog, model []string, runs [][]string) (agree 
 				lisp = c12Lisp(p, i)
 			}
 			c.Report(sig, p.sweep, map[string]any{
-				"lisp": lisp,
+				"lisp":    lisp,
 				"request": p.request(), "reps": p.reps, "token_index": i, "token": tok, "run": rep,
 				"observed": words[i], "expected": model[i], "expected_from": "model:clos.run",
 				"input":     strings.Join(p.toks[:i+1], " "),
@@ -1346,6 +1724,12 @@ func c12Replay(c *lib.Ctx) {
 	}
 	p := &c12Prog{key: "rp", toks: toks, reps: reps, redefAt: -1, shape: "replay"}
 	model := strings.Fields(c.Model([]string{p.request()})[0])[1:]
+	// first in a watched worker process: the recorded case may dead-lock the implementation
+	if _, stalled, err := c12RunWorker(c, []*c12Prog{{key: "rpw", toks: toks, reps: reps}}, c12Idle); err == nil && stalled {
+		fmt.Printf("replay: the implementation made no progress for %v on this program (dead-lock)\n  %s\n", c12Idle, strings.Join(toks, " "))
+		c.Report("aspect=replay", false, map[string]any{"request": req, "observed": "!hang", "expected": strings.Join(model, " ")})
+		return
+	}
 	shown := false
 	for rep := 0; rep < reps; rep++ {
 		words, trace := c12RunImpl(fmt.Sprintf("rpr%d", rep), toks, true)
